@@ -3,8 +3,9 @@ import math
 
 from harness import dtwgen
 
-COQ_FILES = ["theories/BandTie.v", "theories/Bounds.v", "props/C09.v"]
-THEOREMS = [("DVProps.C09", "C09_lb_keogh_le_dtw"), ("DVProps.C09", "C09_dtw_le_euclidean")]
+COQ_FILES = ["theories/BandTie.v", "theories/Bounds.v", "gen/Gen_clb.v", "theories/CLb.v", "props/C09.v"]
+THEOREMS = [("DVProps.C09", "C09_lb_keogh_le_dtw"), ("DVProps.C09", "C09_dtw_le_euclidean"),
+            ("DVProps.C09", "C09_c_envelope_is_python_envelope")]
 TRUSTED_BASE = [
     "Coq 8.16.1 kernel (no native_compute)",
     "tools/translate_py.py: lb_keogh index arithmetic (imin_diff, imax_diff, imin, imax) regenerated into Gen_dtw.v and "
